@@ -130,13 +130,16 @@ func serverInfo(name string, i int) proxy.ServerInfo {
 
 func nameOf(p proxy.Player) string { return p.RemoteAddr().String() }
 
-var kinds = []string{"players.list", "servers.list", "sp.range", "players.count", "sp.len"}
+var kinds = []string{"players.list", "servers.list", "sp.range", "players.list", "players.count", "sp.len"}
 
+// Every writer operation has the same shape: w.enter, a gate before the lock is asked
+// for (for a leaving player that is after its connection was closed and before it is
+// unregistered), the gate inside the critical section.
 var gatesOf = map[string][]string{
-	"players": {"w.enter", "reg.register.insert", "reg.unregister.locked", "list.players.iter", "list.players.step",
-		"list.disconnectall.iter", "list.disconnectall.step"},
-	"servers": {"w.enter", "srv.register.insert", "srv.unregister.delete", "list.servers.iter", "list.servers.step"},
-	"sp":      {"w.enter", "sp.add.locked", "sp.remove.locked", "list.range.iter", "list.range.step"},
+	"players": {"w.enter", "reg.register.enter", "reg.unregister.enter", "reg.register.insert", "reg.unregister.locked",
+		"list.players.iter", "list.players.step", "list.disconnectall.iter", "list.disconnectall.step"},
+	"servers": {"w.enter", "w.mid", "srv.register.insert", "srv.unregister.delete", "list.servers.iter", "list.servers.step"},
+	"sp":      {"w.enter", "w.mid", "sp.add.locked", "sp.remove.locked", "list.range.iter", "list.range.step"},
 }
 
 var writeEvents = map[string]bool{"reg.inserted": true, "reg.deleted": true, "reg.register.insert": true,
@@ -235,6 +238,9 @@ func (r *runner) run(n int, s schedule) {
 		ctl.Go(w, func() {
 			proxy.VerifYield("w.enter")
 			r.tw.Emit(tracefmt.Rec{"ev": "w.call", "t": w, "op": op.Op, "k": op.K})
+			if coll != "players" {
+				proxy.VerifYield("w.mid")
+			}
 			switch coll {
 			case "players":
 				switch op.Op {
@@ -278,6 +284,8 @@ func (r *runner) run(n int, s schedule) {
 		ctl.Go(t, func() {
 			r.tw.Emit(tracefmt.Rec{"ev": "r.call", "t": t, "api": k})
 			rec := tracefmt.Rec{"ev": "r.ret", "t": t, "api": k}
+			// the same caller asks for the count right after a listing
+			second := map[string]string{"players.list": "players.count", "sp.range": "sp.len"}[k]
 			switch k {
 			case "players.list":
 				l := []string{}
@@ -312,6 +320,16 @@ func (r *runner) run(n int, s schedule) {
 				rec["count"] = rs.Players().Len()
 			}
 			r.tw.Emit(rec)
+			if second != "" {
+				r.tw.Emit(tracefmt.Rec{"ev": "r.call", "t": t, "api": second})
+				n := 0
+				if second == "players.count" {
+					n = px.PlayerCount()
+				} else {
+					n = rs.Players().Len()
+				}
+				r.tw.Emit(tracefmt.Rec{"ev": "r.ret", "t": t, "api": second, "count": n})
+			}
 		})
 	}
 
